@@ -1,7 +1,7 @@
 """Scanner/grammar rules: Y1 scanner completeness (flex's own DFA analysis), Y4 %destructor for owning
 semantic types, N1 format directives are their documented expansions, Z2 escape tables."""
 import os, re, subprocess
-from zw import Broken, REPO, walk, calls, unwrap, short
+from zw import Broken, REPO, walk, walk_nolambda, calls, unwrap, short
 
 
 def lexer_path():
@@ -124,4 +124,190 @@ def n2(prog):
     if not ok:
         findings.append({"key": key, "where": po["l"],
                          "msg": "infix comparison is no longer built as ?(let a := A; let b := B; a b op) with matching reserved names (bound %s, read %s)" % (tmpl_names, words), "detail": info})
+    return inst, findings
+
+
+# ---------------------------------------------------------------------------
+# Y2: fields that are local to a start condition are (re)initialised when the condition is entered
+
+def _lexer_rules():
+    """[(first line, last line, start condition)] of the rules section of lexer.ll"""
+    lines = open(lexer_path()).read().split("\n")
+    # rules section
+    idx = [i for i, l in enumerate(lines) if l.strip() == "%%"]
+    if len(idx) < 2:
+        raise Broken("lexer.ll has no delimited rules section")
+    decl = "\n".join(lines[:idx[0]])
+    conds = ["INITIAL"] + [c for l in re.findall(r"(?m)^%[xs]\s+(.+)$", decl) for c in l.split()]
+    rules = []
+    cur = None
+    for i in range(idx[0] + 1, idx[1]):
+        l = lines[i]
+        if l and not l[0].isspace() and not l.startswith(("/*", "//", "}", "#")):
+            m = re.match(r"<([A-Z_]+)>", l)
+            st = m.group(1) if m else "INITIAL"
+            if cur:
+                rules.append((cur[0], i, cur[1]))
+            cur = (i + 1, st)
+    if cur:
+        rules.append((cur[0], idx[1], cur[1]))
+    return conds, rules
+
+
+def y2(prog):
+    from cfg import CFG
+    from r_tables import intval
+    inst, findings = [], []
+    yl = prog.func_opt("yylex")
+    if yl is None:
+        raise Broken("anchor yylex vanished")
+    conds, rules = _lexer_rules()
+
+    def rule_of(loc):
+        if not loc or not loc.startswith("lexer.ll:"):
+            return None
+        n = int(loc.split(":")[1])
+        for a, b, st in rules:
+            if a <= n <= b:
+                return (a, st)
+        return None
+    # initial values from fmtlit's constructor
+    ctor = [f for f in prog.funcs.values() if f.get("cls") == "fmtlit" and f.get("isctor") and f.get("inits")]
+    if not ctor:
+        raise Broken("fmtlit constructor vanished")
+    initial = {}
+    for i in ctor[0]["inits"]:
+        v = i.get("init")
+        while isinstance(v, dict) and v.get("k") in ("ilist", "ctor") and len(v.get("a", [])) == 1:
+            v = v["a"][0]
+        if isinstance(v, dict) and v.get("k") in ("int", "bool"):
+            initial[i["field"]] = int(v["v"])
+    # the action switch: case statements whose bodies carry lexer.ll lines
+    actions = {}
+    for x in walk(yl["body"]):
+        if x.get("k") == "case":
+            sub = x
+            stmts = []
+            # statements of this case: the case's sub statement plus following siblings are not available here;
+            # use line ownership instead
+    # collect every statement-level node by rule
+    by_rule = {}
+    for x in walk(yl["body"]):
+        if x.get("k") == "block":
+            for st in x["s"]:
+                r = rule_of(st.get("l"))
+                if r and st.get("k") not in ("case", "default"):
+                    by_rule.setdefault(r, [])
+                    if not any(st is y for y in by_rule[r]):
+                        by_rule[r].append(st)
+                elif r and st.get("k") == "case":
+                    inner = st
+                    while isinstance(inner, dict) and inner.get("k") in ("case", "default"):
+                        inner = inner.get("sub")
+                    if isinstance(inner, dict):
+                        r2 = rule_of(inner.get("l"))
+                        if r2:
+                            by_rule.setdefault(r2, []).append(inner)
+    # keep only outermost statements per rule (drop those nested in another kept statement)
+    for r, sts in by_rule.items():
+        keep = []
+        for s in sts:
+            if not any(o is not s and any(y is s for y in walk(o)) for o in sts):
+                keep.append(s)
+        by_rule[r] = keep
+    # field access census
+    access = {}
+    for r, sts in by_rule.items():
+        for s in sts:
+            plain_writes = {id(unwrap(y["lhs"])) for y in walk(s) if y.get("k") == "asg" and y.get("op") == "="}
+            for y in walk(s):
+                if y.get("k") == "mem" and y.get("c") == "fmtlit" and "fid" not in y and id(y) not in plain_writes:
+                    access.setdefault(y["n"], set()).add(r[1])     # reads (and read-modify-writes) only
+    local = {f: next(iter(s)) for f, s in access.items() if len(s) == 1 and next(iter(s)) != "INITIAL" and f in initial}
+    if not local:
+        raise Broken("no start-condition-local fmtlit field found (anchor level/in_string vanished)")
+
+    def begin_target(node):
+        for y in walk_nolambda(node):
+            if y.get("k") == "asg" and isinstance(unwrap(y["lhs"]), dict) and unwrap(y["lhs"]).get("n") == "yy_start":
+                v = intval(y["rhs"])
+                if v is not None:
+                    return conds[(v - 1) // 2]
+        return None
+    entering = {}   # state -> [(rule, assigns set)]
+    for r, sts in sorted(by_rule.items()):
+        fake = {"q": "yylex[%s:%d]" % (r[1], r[0]), "l": "lexer.ll:%d" % r[0], "body": {"k": "block", "l": "lexer.ll:%d" % r[0], "s": sts}, "allow_break": True}
+        g = CFG(fake)
+        bn = [(n, begin_target(n.ast)) for n in g.nodes if isinstance(n.ast, dict) and n.kind in ("stmt",) and begin_target(n.ast)]
+        for n, tgt in bn:
+            if tgt == r[1]:
+                continue
+            # fields local to the state being left must be at their initial value; fields local to the state being entered
+            # may alternatively be assigned here
+            def field_state_on_paths(fld):
+                """set of abstract states of fld at node n over all paths from entry: 'init' | 'other' | 'unknown'"""
+                res = set()
+                seen = set()
+                stack = [(g.entry.id, "unknown")]
+                while stack:
+                    nid, stt = stack.pop()
+                    if (nid, stt) in seen:
+                        continue
+                    seen.add((nid, stt))
+                    node = g.nodes[nid]
+                    if nid == n.id:
+                        res.add(stt)
+                        continue
+                    s2 = stt
+                    if isinstance(node.ast, dict) and node.kind == "stmt":
+                        for y in walk_nolambda(node.ast):
+                            if y.get("k") == "asg" and isinstance(unwrap(y["lhs"]), dict) and unwrap(y["lhs"]).get("k") == "mem" \
+                               and unwrap(y["lhs"]).get("c") == "fmtlit" and unwrap(y["lhs"])["n"] == fld:
+                                v = intval(y["rhs"])
+                                if v is None and isinstance(unwrap(y["rhs"]), dict) and unwrap(y["rhs"]).get("k") == "bool":
+                                    v = int(unwrap(y["rhs"])["v"])
+                                s2 = "init" if (y["op"] == "=" and v == initial[fld]) else "other"
+                            if y.get("k") == "un" and y.get("op") in ("++", "--") and isinstance(unwrap(y["e"]), dict) and unwrap(y["e"]).get("n") == fld:
+                                s2 = "other"
+                    for t, lab in node.succs:
+                        s3 = s2
+                        if node.kind == "cond" and isinstance(node.ast, dict):
+                            c = unwrap(node.ast)
+                            # F == init  /  !F (bool)  /  F
+                            if c.get("k") == "bin" and c.get("op") in ("==", "!="):
+                                l, rr = unwrap(c["lhs"]), unwrap(c["rhs"])
+                                if isinstance(l, dict) and l.get("k") == "mem" and l["n"] == fld and intval(rr) == initial[fld]:
+                                    if (c["op"] == "==") == (lab is True):
+                                        s3 = "init"
+                            if c.get("k") == "mem" and c["n"] == fld and initial[fld] == 0 and lab is False:
+                                s3 = "init"
+                            for y in walk_nolambda(c):
+                                if y.get("k") == "un" and y.get("op") in ("++", "--") and isinstance(unwrap(y["e"]), dict) and unwrap(y["e"]).get("n") == fld:
+                                    s3 = "other"
+                        stack.append((t, s3))
+                return res
+            for fld, st in sorted(local.items()):
+                if st == r[1]:       # leaving the field's home state
+                    sts_ = field_state_on_paths(fld)
+                    entering.setdefault(("leave", st, fld), []).append((r, n.loc, sts_))
+                if st == tgt:        # entering the field's home state
+                    sts_ = field_state_on_paths(fld)
+                    entering.setdefault(("enter", st, fld), []).append((r, n.loc, sts_))
+    for fld, st in sorted(local.items()):
+        ent = entering.get(("enter", st, fld), [])
+        lea = entering.get(("leave", st, fld), [])
+        if not ent:
+            raise Broken("no action enters start condition %s" % st)
+        set_on_entry = all(s == {"init"} for _, _, s in ent)
+        clean_on_leave = all(s == {"init"} for _, _, s in lea)
+        key = "Y2:%s.%s" % (st, fld)
+        inst.append((key, {"field": fld, "home_state": st, "initial": initial[fld], "assigned_on_every_entry": set_on_entry,
+                           "restored_on_every_exit": clean_on_leave,
+                           "entries": [e[1] for e in ent], "exits": [e[1] for e in lea]}))
+        if not set_on_entry and not clean_on_leave:
+            bad = [e for e in lea if e[2] != {"init"}]
+            findings.append({"key": key, "where": "libzwerg/%s" % (bad[0][1] if bad else ent[0][1]),
+                             "msg": "fmtlit::%s is only meaningful in start condition %s, but it is neither set to its initial value (%d) when %s is entered (%s) nor guaranteed to hold it when %s is left (%s): a second %%( ... %%) splice in one string starts with stale state" % (
+                                 fld, st, initial[fld], st, ", ".join(e[1] for e in ent), st, ", ".join(e[1] for e in bad)),
+                             "detail": None})
     return inst, findings
